@@ -1,7 +1,8 @@
 import Hms.Value.Cast
+import HmsProofs.Lemmas.ValEq
 /-! Lemmas for C12: soundness, identity, admission, error paths of `castAll`. -/
 namespace HmsProofs.Lemmas.ValCast
-open Hms.Value
+open Hms.Value HmsProofs.Lemmas.ValEq
 
 theorem castVals_ok_all {f : Nat → Val → CastRes} {P : Val → Bool}
     (h : ∀ i x x', f i x = .ok x' → P x' = true) :
@@ -196,5 +197,596 @@ theorem castFields_good (allow : Bool) : ∀ (tfs : TyFields), TyFields.wf tfs =
         simp [conformsFields, Fields.lookup, this, Fields.keys, TyFields.keys, hk,
           conformsFields_cons_skip k x' _ rest hn.1, hcf]
 end
+
+/-! ### Identity: a conforming value is admitted unchanged -/
+
+theorem castVals_identity {f : Nat → Val → CastRes} {P : Val → Prop} :
+    ∀ (xs : Vals) (n : Nat), (∀ i x, P x → ∃ x', f i x = .ok x' ∧ x'.isEqual x = true) →
+      (∀ i x, xs.get? i = .some x → P x) →
+      ∃ xs', castVals f n xs = .ok xs' ∧ Vals.isEqual xs' xs = true ∧ xs'.length = xs.length
+  | .nil, n, _, _ => ⟨.nil, by simp [castVals, Vals.isEqual, Vals.length]⟩
+  | .cons x xs, n, hf, hp => by
+    obtain ⟨x', hx', he⟩ := hf n x (hp 0 x (by simp [Vals.get?]))
+    obtain ⟨xs', hxs', hes, hl⟩ := castVals_identity xs (n + 1) hf (fun i y hy => hp (i + 1) y (by simpa [Vals.get?] using hy))
+    exact ⟨.cons x' xs', by simp [castVals, hx', hxs'], by simp [Vals.isEqual, he, hes], by simp [Vals.length, hl]⟩
+
+theorem all_get {p : Val → Bool} : ∀ (xs : Vals), xs.all p = true → ∀ i x, xs.get? i = .some x → p x = true
+  | .nil, _, i, x, h => by simp [Vals.get?] at h
+  | .cons y ys, ha, i, x, h => by
+    simp only [Vals.all, Bool.and_eq_true] at ha
+    cases i with
+    | zero => simp [Vals.get?] at h; subst h; exact ha.1
+    | succ i => exact all_get ys ha.2 i x (by simpa [Vals.get?] using h)
+
+theorem vals_wf_get : ∀ (xs : Vals), xs.wf = true → ∀ i x, xs.get? i = .some x → x.wf = true
+  | .nil, _, i, x, h => by simp [Vals.get?] at h
+  | .cons y ys, hw, i, x, h => by
+    simp only [Vals.wf, Bool.and_eq_true] at hw
+    cases i with
+    | zero => simp [Vals.get?] at h; subst h; exact hw.1
+    | succ i => exact vals_wf_get ys hw.2 i x (by simpa [Vals.get?] using h)
+
+theorem vals_data_get : ∀ (xs : Vals), xs.data = true → ∀ i x, xs.get? i = .some x → x.data = true
+  | .nil, _, i, x, h => by simp [Vals.get?] at h
+  | .cons y ys, hw, i, x, h => by
+    simp only [Vals.data, Bool.and_eq_true] at hw
+    cases i with
+    | zero => simp [Vals.get?] at h; subst h; exact hw.1
+    | succ i => exact vals_data_get ys hw.2 i x (by simpa [Vals.get?] using h)
+
+theorem conformsFields_keys : ∀ (tfs : TyFields) (fs : Fields), conformsFields tfs fs = true →
+    ∀ k ∈ tfs.keys, k ∈ fs.keys
+  | .nil, _, _, k, hk => by simp [TyFields.keys] at hk
+  | .cons k' t rest, fs, h, k, hk => by
+    simp only [conformsFields, Bool.and_eq_true] at h
+    simp only [TyFields.keys, List.mem_cons] at hk
+    rcases hk with rfl | hk
+    · cases hl : fs.lookup k with
+      | none => simp [hl] at h
+      | some x => exact mem_keys_of_mem fs k x (lookup_mem fs k x hl)
+    · exact conformsFields_keys rest fs h.2 k hk
+
+theorem castFields_out_keys (allow : Bool) : ∀ (tfs : TyFields) (fs : Fields) (p : Path),
+    (castFields allow tfs fs p).errs = [] → (castFields allow tfs fs p).missing = .none →
+    (castFields allow tfs fs p).out.keys = tfs.keys
+  | .nil, fs, p, _, _ => by simp [castFields, Fields.keys, TyFields.keys]
+  | .cons k t rest, fs, p, he, hm => by
+    cases hl : fs.lookup k with
+    | none => rw [castFields_cons_none hl] at hm; simp at hm
+    | some x =>
+      cases hc : castAll allow t x (p ++ [.field k]) with
+      | error es =>
+        rw [castFields_cons_err hl hc] at he
+        simp only [List.append_eq_nil_iff] at he
+        exact absurd he.1 (castAll_err_ne allow t _ _ _ hc)
+      | ok x' =>
+        rw [castFields_cons_ok hl hc] at he hm ⊢
+        simp [Fields.keys, TyFields.keys, castFields_out_keys allow rest fs p he hm]
+
+/-- Invariant of the walk over the declared fields for a conforming object. -/
+def FieldsIdent (fs : Fields) (r : FieldsRes) : Prop :=
+  r.errs = [] ∧ r.missing = .none ∧
+    ∀ k x', (k, x') ∈ r.out.toList → ∃ x, fs.lookup k = .some x ∧ x'.isEqual x = true
+
+mutual
+theorem castAll_identity (allow : Bool) : ∀ (T : Ty) (v : Val) (p : Path), T.wf = true → conforms T v = true →
+    v.wf = true → v.data = true → ∃ v', castAll allow T v p = .ok v' ∧ v'.isEqual v = true
+  | .any, v, p, _, _, hw, hd => ⟨v, by simp [castAll], isEqual_refl v hw hd⟩
+  | .opt t, v, p, hT, hc, hw, hd => by
+    simp only [Ty.wf] at hT
+    cases v <;> simp [conforms] at hc
+    · exact ⟨.none, by simp [castAll], by simp [Val.isEqual]⟩
+    · rename_i x
+      simp only [Val.wf, Val.data] at hw hd
+      obtain ⟨x', hx', he⟩ := castAll_identity allow t x (p ++ [.optInner]) hT hc hw hd
+      exact ⟨.some x', by simp [castAll, hx', Except.map], by simp [Val.isEqual, he]⟩
+  | .null, v, p, _, hc, hw, hd => by
+    cases v <;> simp [conforms] at hc; exact ⟨_, by simp [castAll], isEqual_refl _ hw hd⟩
+  | .str, v, p, _, hc, hw, hd => by
+    cases v <;> simp [conforms] at hc; exact ⟨_, by simp [castAll], isEqual_refl _ hw hd⟩
+  | .range, v, p, _, hc, hw, hd => by
+    cases v <;> simp [conforms] at hc; exact ⟨_, by simp [castAll], isEqual_refl _ hw hd⟩
+  | .fn, v, p, _, hc, _, _ => by simp [conforms] at hc
+  | .bool, v, p, _, hc, hw, hd => by
+    cases v <;> simp [conforms] at hc; exact ⟨_, by simp [castAll], isEqual_refl _ hw hd⟩
+  | .int, v, p, _, hc, hw, hd => by
+    cases v <;> simp [conforms] at hc; exact ⟨_, by simp [castAll], isEqual_refl _ hw hd⟩
+  | .float, v, p, _, hc, hw, hd => by
+    cases v <;> simp [conforms] at hc; exact ⟨_, by simp [castAll], isEqual_refl _ hw hd⟩
+  | .anyobj, v, p, _, hc, hw, hd => by
+    cases v <;> simp [conforms] at hc; exact ⟨_, by simp [castAll], isEqual_refl _ hw hd⟩
+  | .list t, v, p, hT, hc, hw, hd => by
+    simp only [Ty.wf] at hT
+    cases v <;> simp [conforms] at hc
+    rename_i xs
+    simp only [Val.wf, Val.data] at hw hd
+    obtain ⟨xs', h1, h2, h3⟩ := castVals_identity (f := fun i x => castAll allow t x (p ++ [.index i]))
+      (P := fun x => conforms t x = true ∧ x.wf = true ∧ x.data = true) xs 0
+      (fun i x hx => castAll_identity allow t x _ hT hx.1 hx.2.1 hx.2.2)
+      (fun i x hx => ⟨all_get xs hc i x hx, vals_wf_get xs hw i x hx, vals_data_get xs hd i x hx⟩)
+    exact ⟨.list xs', by simp [castAll, h1, Except.map], by simp [Val.isEqual, h2, h3]⟩
+  | .obj tfs, v, p, hT, hc, hw, hd => by
+    simp only [Ty.wf, Bool.and_eq_true] at hT
+    cases v <;> simp [conforms] at hc
+    rename_i fs
+    simp only [Val.wf, Val.data, Bool.and_eq_true] at hw hd
+    obtain ⟨h1, h2, h3⟩ := castFields_identity allow tfs fs p hT.2 hc.1 hw.2 hd
+    have hk := castFields_out_keys allow tfs fs p h1 h2
+    have hun : List.filter (fun k => !tfs.hasKey k) fs.keys = [] := by
+      simp only [List.filter_eq_nil_iff]; intro k hk'; simp [hc.2 k hk']
+    have hsub1 : ∀ k ∈ fs.keys, k ∈ tfs.keys := by
+      intro k hk'; simpa [TyFields.hasKey] using hc.2 k hk'
+    have hsub2 := conformsFields_keys tfs fs hc.1
+    have hlen : (castFields allow tfs fs p).out.length = fs.length := by
+      rw [← keys_length, ← keys_length, hk]
+      exact Nat.le_antisymm (length_le_of_nodup_subset _ _ hT.1 hsub2) (length_le_of_nodup_subset _ _ hw.1 hsub1)
+    refine ⟨.obj (castFields allow tfs fs p).out, ?_, ?_⟩
+    · simp [castAll, h1, h2, hun]
+    · simp only [Val.isEqual, Bool.and_eq_true]
+      exact ⟨by simp [hlen], (isEqualIn_iff _ _).mpr h3⟩
+theorem castFields_identity (allow : Bool) : ∀ (tfs : TyFields) (fs : Fields) (p : Path), tfs.wf = true →
+    conformsFields tfs fs = true → fs.wf = true → fs.data = true → FieldsIdent fs (castFields allow tfs fs p)
+  | .nil, fs, p, _, _, _, _ => by simp [FieldsIdent, castFields, Fields.toList]
+  | .cons k t rest, fs, p, hT, hc, hw, hd => by
+    simp only [TyFields.wf, Bool.and_eq_true] at hT
+    simp only [conformsFields, Bool.and_eq_true] at hc
+    obtain ⟨h1, h2, h3⟩ := castFields_identity allow rest fs p hT.2 hc.2 hw hd
+    cases hl : fs.lookup k with
+    | none => simp [hl] at hc
+    | some x =>
+      simp only [hl] at hc
+      have hm := lookup_mem fs k x hl
+      obtain ⟨x', hx', he⟩ := castAll_identity allow t x (p ++ [.field k]) hT.1 hc.1 (mem_wf fs hw k x hm) (mem_data fs hd k x hm)
+      rw [castFields_cons_ok hl hx']
+      refine ⟨h1, h2, ?_⟩
+      intro k2 y hy
+      simp only [Fields.toList, List.mem_cons, Prod.mk.injEq] at hy
+      rcases hy with ⟨rfl, rfl⟩ | hy
+      · exact ⟨x, hl, he⟩
+      · exact h3 k2 y hy
+end
+
+/-! ### Admission: the cast succeeds exactly on the convertible pairs -/
+
+def okB {ε α} : Except ε α → Bool
+  | .ok _ => true
+  | .error _ => false
+
+theorem okB_map {ε α β} (f : α → β) (x : Except ε α) : okB (x.map f) = okB x := by
+  cases x <;> rfl
+
+theorem okB_iff {ε α} (x : Except ε α) : okB x = true ↔ ∃ a, x = .ok a := by
+  cases x <;> simp [okB]
+
+theorem castVals_okB {f : Nat → Val → CastRes} {P : Val → Bool} (h : ∀ i x, okB (f i x) = P x) :
+    ∀ (xs : Vals) (n : Nat), okB (castVals f n xs) = xs.all P
+  | .nil, n => by simp [castVals, okB, Vals.all]
+  | .cons x xs, n => by
+    have h1 := h n x
+    have h2 := castVals_okB h xs (n + 1)
+    simp only [castVals, Vals.all]
+    cases hx : f n x with
+    | error es =>
+      rw [hx] at h1; simp only [okB] at h1
+      simp [okB, ← h1]
+    | ok x' =>
+      rw [hx] at h1; simp only [okB] at h1
+      cases hxs : castVals f (n + 1) xs with
+      | error es => rw [hxs] at h2; simp only [okB] at h2; simp [okB, ← h1, ← h2]
+      | ok xs' => rw [hxs] at h2; simp only [okB] at h2; simp [okB, ← h1, ← h2]
+
+/-- the walk over the declared fields is clean iff every declared field is present and convertible -/
+def fieldsClean (r : FieldsRes) : Bool := r.errs.isEmpty && r.missing.isNone
+
+mutual
+theorem castAll_okB (allow : Bool) : ∀ (T : Ty) (v : Val) (p : Path),
+    okB (castAll allow T v p) = convertible allow T v
+  | .any, v, p => by simp [castAll, okB, convertible]
+  | .opt t, v, p => by
+    cases v <;> simp only [castAll, convertible, okB_map] <;>
+      first | rfl | exact castAll_okB allow t _ _
+  | .null, v, p => by cases v <;> simp [castAll, incompatible, okB, convertible]
+  | .str, v, p => by cases v <;> simp [castAll, incompatible, okB, convertible]
+  | .range, v, p => by cases v <;> simp [castAll, incompatible, okB, convertible]
+  | .fn, v, p => by simp [castAll, incompatible, okB, convertible]
+  | .bool, v, p => by cases v <;> cases allow <;> simp [castAll, incompatible, okB, convertible, isScalarNum]
+  | .int, v, p => by cases v <;> cases allow <;> simp [castAll, incompatible, okB, convertible, isScalarNum]
+  | .float, v, p => by cases v <;> cases allow <;> simp [castAll, incompatible, okB, convertible, isScalarNum]
+  | .anyobj, v, p => by cases v <;> simp [castAll, incompatible, okB, convertible]
+  | .list t, v, p => by
+    cases v <;> simp only [castAll, incompatible, convertible, okB_map] <;>
+      first | rfl | exact castVals_okB (fun i x => castAll_okB allow t x _) _ _
+  | .obj tfs, v, p => by
+    cases v <;> simp only [castAll, incompatible, convertible] <;> try rfl
+    rename_i fs
+    rw [← castFields_clean allow tfs fs p]
+    generalize castFields allow tfs fs p = r
+    have hun : (List.map (fun k => CastErr.mk (.unexpectedField k) p)
+        (List.filter (fun k => !tfs.hasKey k) fs.keys)).isEmpty = fs.keys.all (fun k => tfs.hasKey k) := by
+      rw [Bool.eq_iff_iff]; simp [List.filter_eq_nil_iff]
+    rcases r with ⟨errs, out, missing⟩
+    rw [← hun]
+    generalize List.map (fun k => CastErr.mk (.unexpectedField k) p) (List.filter (fun k => !tfs.hasKey k) fs.keys) = un
+    cases errs <;> cases un <;> cases missing <;> simp [fieldsClean, okB]
+theorem castFields_clean (allow : Bool) : ∀ (tfs : TyFields) (fs : Fields) (p : Path),
+    fieldsClean (castFields allow tfs fs p) = convertibleFields allow tfs fs
+  | .nil, fs, p => by simp [castFields, fieldsClean, convertibleFields]
+  | .cons k t rest, fs, p => by
+    have ih := castFields_clean allow rest fs p
+    cases hl : fs.lookup k with
+    | none => rw [castFields_cons_none hl]; simp [fieldsClean, convertibleFields, hl]
+    | some x =>
+      have hx := castAll_okB allow t x (p ++ [.field k])
+      cases hc : castAll allow t x (p ++ [.field k]) with
+      | error es =>
+        rw [castFields_cons_err hl hc]
+        rw [hc] at hx
+        have := castAll_err_ne allow t _ _ _ hc
+        simp only [okB] at hx
+        have : (es ++ (castFields allow rest fs p).errs).isEmpty = false := by
+          cases es <;> simp_all
+        simp [fieldsClean, convertibleFields, hl, ← hx, this]
+      | ok x' =>
+        rw [castFields_cons_ok hl hc]
+        rw [hc] at hx
+        simp [okB] at hx
+        simp only [fieldsClean] at ih
+        simp [fieldsClean, convertibleFields, hl, ← hx, ih]
+end
+
+/-! ### Error paths: every reportable error addresses an offending sub-value -/
+
+def ErrAt (allow : Bool) (p : Path) (v : Val) (T : Ty) (e : CastErr) : Prop :=
+  ∃ q vs Ts, e.path = p ++ q ∧ subAt q v T = .some (vs, Ts) ∧ offends allow e.cls vs Ts = true
+
+def isPlain : Val → Bool
+  | .some _ | .none | .null => false
+  | _ => true
+
+theorem peel_opt_plain {v : Val} (h : isPlain v = true) (t : Ty) : peel v (.opt t) = peel v t := by
+  cases v <;> simp [isPlain] at h <;> simp [peel, Ty.stripOpt]
+
+theorem subAt_opt_plain {v : Val} (h : isPlain v = true) (t : Ty) : ∀ q, subAt q v (.opt t) = subAt q v t
+  | [] => by simp [subAt, peel_opt_plain h]
+  | c :: rest => by simp [subAt, peel_opt_plain h]
+
+theorem errAt_opt_plain {allow p v t e} (h : isPlain v = true) (he : ErrAt allow p v t e) :
+    ErrAt allow p v (.opt t) e := by
+  obtain ⟨q, vs, Ts, h1, h2, h3⟩ := he
+  exact ⟨q, vs, Ts, h1, by rw [subAt_opt_plain h]; exact h2, h3⟩
+
+theorem errAt_here {allow p v T c} (h : offends allow c v (peel v T) = true) :
+    ErrAt allow p v T ⟨c, p⟩ :=
+  ⟨[], v, peel v T, by simp, by simp [subAt], h⟩
+
+theorem ty_mem_keys_of_mem : ∀ (tfs : TyFields) (k : String) (t : Ty), (k, t) ∈ tfs.toList → k ∈ tfs.keys
+  | .nil, k, t, h => by simp [TyFields.toList] at h
+  | .cons k' t' tfs, k, t, h => by
+    simp only [TyFields.toList, List.mem_cons, Prod.mk.injEq] at h
+    rcases h with ⟨rfl, _⟩ | h
+    · simp [TyFields.keys]
+    · simp [TyFields.keys, ty_mem_keys_of_mem tfs k t h]
+
+theorem tylookup_of_mem_nodup : ∀ (tfs : TyFields) (k : String) (t : Ty), nodupKeys tfs.keys = true →
+    (k, t) ∈ tfs.toList → tfs.lookup k = .some t
+  | .nil, k, t, _, h => by simp [TyFields.toList] at h
+  | .cons k' t' tfs, k, t, hn, h => by
+    simp only [TyFields.keys] at hn
+    rw [nodupKeys_cons] at hn
+    simp only [TyFields.toList, List.mem_cons, Prod.mk.injEq] at h
+    rcases h with ⟨rfl, rfl⟩ | h
+    · simp [TyFields.lookup]
+    · have hk : k ∈ tfs.keys := ty_mem_keys_of_mem tfs k t h
+      have : k' ≠ k := fun e => hn.1 (e ▸ hk)
+      simp [TyFields.lookup, this, tylookup_of_mem_nodup tfs k t hn.2 h]
+
+theorem ty_mem_wf : ∀ (tfs : TyFields), tfs.wf = true → ∀ k t, (k, t) ∈ tfs.toList → t.wf = true
+  | .nil, _, k, t, h => by simp [TyFields.toList] at h
+  | .cons k' t' tfs, hw, k, t, h => by
+    simp only [TyFields.wf, Bool.and_eq_true] at hw
+    simp only [TyFields.toList, List.mem_cons, Prod.mk.injEq] at h
+    rcases h with ⟨rfl, rfl⟩ | h
+    · exact hw.1
+    · exact ty_mem_wf tfs hw.2 k t h
+
+/-- What the walk over the declared fields reports. -/
+def FieldsErrs (allow : Bool) (tfs : TyFields) (fs : Fields) (p : Path) (r : FieldsRes) : Prop :=
+  (∀ e ∈ r.errs, ∃ k t x, (k, t) ∈ tfs.toList ∧ fs.lookup k = .some x ∧ ErrAt allow (p ++ [.field k]) x t e) ∧
+  (∀ k, r.missing = .some k → k ∈ tfs.keys ∧ fs.lookup k = .none)
+
+mutual
+theorem castAll_errpath (allow : Bool) : ∀ (T : Ty), T.wf = true → ∀ (v : Val) (p : Path) (es : List CastErr),
+    castAll allow T v p = .error es → ∀ e ∈ es, ErrAt allow p v T e
+  | .any, _, v, p, es, h => by simp [castAll] at h
+  | .opt t, hT, v, p, es, h => by
+    simp only [Ty.wf] at hT
+    intro e he
+    cases v <;> simp only [castAll] at h <;>
+      first
+      | cases h
+      | exact errAt_opt_plain rfl (castAll_errpath allow t hT _ _ _ (except_map_err h) e he)
+      | skip
+    rename_i x
+    obtain ⟨q, vs, Ts, h1, h2, h3⟩ := castAll_errpath allow t hT _ _ _ (except_map_err h) e he
+    exact ⟨.optInner :: q, vs, Ts, by simp [h1], by simp [subAt, peel, h2], h3⟩
+  | .null, _, v, p, es, h => by
+    cases v <;> simp [castAll, incompatible] at h <;> subst h <;> simp <;>
+      exact errAt_here (by simp [offends, rootFits, peel, Ty.stripOpt])
+  | .str, _, v, p, es, h => by
+    cases v <;> simp [castAll, incompatible] at h <;> subst h <;> simp <;>
+      exact errAt_here (by simp [offends, rootFits, peel, Ty.stripOpt])
+  | .range, _, v, p, es, h => by
+    cases v <;> simp [castAll, incompatible] at h <;> subst h <;> simp <;>
+      exact errAt_here (by simp [offends, rootFits, peel, Ty.stripOpt])
+  | .fn, _, v, p, es, h => by
+    simp [castAll, incompatible] at h; subst h; simp
+    exact errAt_here (by cases v <;> simp [offends, rootFits, peel, Ty.stripOpt])
+  | .bool, _, v, p, es, h => by
+    cases v <;> cases allow <;> simp [castAll, incompatible] at h <;> subst h <;> simp <;>
+      exact errAt_here (by simp [offends, rootFits, peel, Ty.stripOpt, isScalarNum])
+  | .int, _, v, p, es, h => by
+    cases v <;> cases allow <;> simp [castAll, incompatible] at h <;> subst h <;> simp <;>
+      exact errAt_here (by simp [offends, rootFits, peel, Ty.stripOpt, isScalarNum])
+  | .float, _, v, p, es, h => by
+    cases v <;> cases allow <;> simp [castAll, incompatible] at h <;> subst h <;> simp <;>
+      exact errAt_here (by simp [offends, rootFits, peel, Ty.stripOpt, isScalarNum])
+  | .anyobj, _, v, p, es, h => by
+    cases v <;> simp [castAll, incompatible] at h <;> subst h <;> simp <;>
+      exact errAt_here (by simp [offends, rootFits, peel, Ty.stripOpt])
+  | .list t, hT, v, p, es, h => by
+    simp only [Ty.wf] at hT
+    intro e he
+    cases v <;> simp only [castAll, incompatible] at h <;>
+      first
+      | (cases h; simp at he; subst he; exact errAt_here (by simp [offends, rootFits, peel, Ty.stripOpt]))
+      | skip
+    rename_i xs
+    obtain ⟨i, x, _, hg, hf⟩ := castVals_err _ _ _ (except_map_err h)
+    obtain ⟨q, vs, Ts, h1, h2, h3⟩ := castAll_errpath allow t hT _ _ _ hf e he
+    have hg' : xs.get? i = .some x := by simpa using hg
+    exact ⟨.index i :: q, vs, Ts, by simp [h1], by simp [subAt, peel, Ty.stripOpt, hg', h2], h3⟩
+  | .obj tfs, hT, v, p, es, h => by
+    simp only [Ty.wf, Bool.and_eq_true] at hT
+    intro e he
+    cases v <;> simp only [castAll, incompatible] at h <;>
+      first
+      | (cases h; simp at he; subst he; exact errAt_here (by simp [offends, rootFits, peel, Ty.stripOpt]))
+      | skip
+    rename_i fs
+    obtain ⟨hE, hM⟩ := castFields_errpath allow tfs hT.2 fs p
+    have hnested : ∀ e ∈ (castFields allow tfs fs p).errs, ErrAt allow p (.obj fs) (.obj tfs) e := by
+      intro e he
+      obtain ⟨k, t, x, h1, h2, q, vs, Ts, h3, h4, h5⟩ := hE e he
+      have hl := tylookup_of_mem_nodup tfs k t hT.1 h1
+      exact ⟨.field k :: q, vs, Ts, by simp [h3], by simp [subAt, peel, Ty.stripOpt, h2, hl, h4], h5⟩
+    have hunexp : ∀ e ∈ List.map (fun k => CastErr.mk (.unexpectedField k) p)
+        (List.filter (fun k => !tfs.hasKey k) fs.keys), ErrAt allow p (.obj fs) (.obj tfs) e := by
+      intro e he
+      simp only [List.mem_map, List.mem_filter] at he
+      obtain ⟨k, ⟨hk1, hk2⟩, rfl⟩ := he
+      exact errAt_here (by simp [offends, peel, Ty.stripOpt, Fields.hasKey, hk1] ; simpa using hk2)
+    split at h
+    · cases h
+    · rename_i k _ hm
+      cases h
+      simp at he; subst he
+      obtain ⟨h1, h2⟩ := hM k hm
+      have : k ∉ fs.keys := fun hk => by
+        obtain ⟨a, ha⟩ := lookup_of_mem_keys fs k hk
+        rw [h2] at ha; cases ha
+      exact errAt_here (by simp [offends, peel, Ty.stripOpt, TyFields.hasKey, Fields.hasKey, h1, this])
+    · cases h
+      simp only [List.mem_append] at he
+      rcases he with he | he
+      · exact hnested e he
+      · exact hunexp e he
+theorem castFields_errpath (allow : Bool) : ∀ (tfs : TyFields), tfs.wf = true → ∀ (fs : Fields) (p : Path),
+    FieldsErrs allow tfs fs p (castFields allow tfs fs p)
+  | .nil, _, fs, p => by simp [FieldsErrs, castFields]
+  | .cons k t rest, hT, fs, p => by
+    simp only [TyFields.wf, Bool.and_eq_true] at hT
+    obtain ⟨hE, hM⟩ := castFields_errpath allow rest hT.2 fs p
+    have hE' : ∀ e ∈ (castFields allow rest fs p).errs, ∃ k' t' x, (k', t') ∈ (TyFields.cons k t rest).toList ∧
+        fs.lookup k' = .some x ∧ ErrAt allow (p ++ [.field k']) x t' e := by
+      intro e he
+      obtain ⟨k', t', x, h1, h2, h3⟩ := hE e he
+      exact ⟨k', t', x, by simp [TyFields.toList, h1], h2, h3⟩
+    have hM' : ∀ k', (castFields allow rest fs p).missing = .some k' →
+        k' ∈ (TyFields.cons k t rest).keys ∧ fs.lookup k' = .none := by
+      intro k' hk'
+      obtain ⟨h1, h2⟩ := hM k' hk'
+      exact ⟨by simp [TyFields.keys, h1], h2⟩
+    cases hl : fs.lookup k with
+    | none =>
+      rw [castFields_cons_none hl]
+      refine ⟨hE', ?_⟩
+      intro k' hk'
+      simp at hk'; subst hk'
+      exact ⟨by simp [TyFields.keys], hl⟩
+    | some x =>
+      cases hc : castAll allow t x (p ++ [.field k]) with
+      | error es =>
+        rw [castFields_cons_err hl hc]
+        refine ⟨?_, hM'⟩
+        intro e he
+        simp only [List.mem_append] at he
+        rcases he with he | he
+        · exact ⟨k, t, x, by simp [TyFields.toList], hl, castAll_errpath allow t hT.1 _ _ _ hc e he⟩
+        · exact hE' e he
+      | ok x' =>
+        rw [castFields_cons_ok hl hc]
+        exact ⟨hE', hM'⟩
+end
+
+/-! ### The admitted value is again a well-formed data value -/
+
+def good (v : Val) : Bool := v.wf && v.data
+
+theorem vals_good : ∀ xs : Vals, (xs.wf && xs.data) = xs.all good
+  | .nil => by simp [Vals.wf, Vals.data, Vals.all]
+  | .cons x xs => by
+    have ih := vals_good xs
+    simp only [Vals.wf, Vals.data, Vals.all, good, ← ih]
+    cases x.wf <;> cases x.data <;> cases xs.wf <;> cases xs.data <;> rfl
+
+theorem good_list (xs : Vals) : good (.list xs) = xs.all good := by
+  simp [good, Val.wf, Val.data, vals_good]
+
+theorem castVals_ok_all' {f : Nat → Val → CastRes} {P Q : Val → Bool}
+    (h : ∀ i x x', Q x = true → f i x = .ok x' → P x' = true) :
+    ∀ (xs : Vals) (n : Nat) (xs' : Vals), xs.all Q = true → castVals f n xs = .ok xs' → xs'.all P = true
+  | .nil, n, xs', _, e => by
+    simp [castVals] at e; subst e; simp [Vals.all]
+  | .cons x xs, n, xs', hq, e => by
+    simp only [Vals.all, Bool.and_eq_true] at hq
+    simp only [castVals] at e
+    split at e
+    · cases e
+    · rename_i x' hx
+      split at e
+      · cases e
+      · rename_i ys hys
+        cases e
+        simp [Vals.all, h n x x' hq.1 hx, castVals_ok_all' h xs (n + 1) ys hq.2 hys]
+
+theorem good_get : ∀ (xs : Vals), xs.all good = true → ∀ i x, xs.get? i = .some x → good x = true :=
+  fun xs h => all_get xs h
+
+theorem fields_good_mem (fs : Fields) (hw : fs.wf = true) (hd : fs.data = true) (k : String) (x : Val)
+    (h : fs.lookup k = .some x) : good x = true := by
+  have hm := lookup_mem fs k x h
+  simp [good, mem_wf fs hw k x hm, mem_data fs hd k x hm]
+
+mutual
+theorem castAll_good (allow : Bool) : ∀ (T : Ty), T.wf = true → ∀ (v : Val) (p : Path) (v' : Val),
+    good v = true → castAll allow T v p = .ok v' → good v' = true
+  | .any, _, v, p, v', hg, e => by simp [castAll] at e; subst e; exact hg
+  | .opt t, hT, v, p, v', hg, e => by
+    simp only [Ty.wf] at hT
+    cases v <;> simp only [castAll] at e <;>
+      first
+      | (cases e; simp [good, Val.wf, Val.data])
+      | (obtain ⟨a, ha, rfl⟩ := except_map_ok e
+         have := castAll_good allow t hT _ _ _ (by simpa [good, Val.wf, Val.data] using hg) ha
+         simpa [good, Val.wf, Val.data] using this)
+  | .null, _, v, p, v', hg, e => by
+    cases v <;> simp [castAll, incompatible] at e <;> subst e <;> exact hg
+  | .str, _, v, p, v', hg, e => by
+    cases v <;> simp [castAll, incompatible] at e <;> subst e <;> exact hg
+  | .range, _, v, p, v', hg, e => by
+    cases v <;> simp [castAll, incompatible] at e <;> subst e <;> exact hg
+  | .fn, _, v, p, v', hg, e => by simp [castAll, incompatible] at e
+  | .bool, _, v, p, v', hg, e => by
+    cases v <;> cases allow <;> simp [castAll, incompatible] at e <;> subst e <;> simp [good, Val.wf, Val.data]
+  | .int, _, v, p, v', hg, e => by
+    cases v <;> cases allow <;> simp [castAll, incompatible] at e <;> subst e <;> simp [good, Val.wf, Val.data]
+  | .float, _, v, p, v', hg, e => by
+    cases v <;> cases allow <;> simp [castAll, incompatible] at e <;> subst e <;> simp [good, Val.wf, Val.data]
+  | .anyobj, _, v, p, v', hg, e => by
+    cases v <;> simp [castAll, incompatible] at e <;> subst e <;> simp_all [good, Val.wf, Val.data]
+  | .list t, hT, v, p, v', hg, e => by
+    simp only [Ty.wf] at hT
+    cases v <;> simp only [castAll, incompatible] at e <;> try cases e
+    rename_i xs
+    obtain ⟨a, ha, rfl⟩ := except_map_ok e
+    rw [good_list] at hg ⊢
+    exact castVals_ok_all' (fun i x x' hq hx => castAll_good allow t hT x _ x' hq hx) _ _ _ hg ha
+  | .obj tfs, hT, v, p, v', hg, e => by
+    simp only [Ty.wf, Bool.and_eq_true] at hT
+    cases v <;> simp only [castAll, incompatible] at e <;> try cases e
+    rename_i fs
+    simp only [good, Val.wf, Val.data, Bool.and_eq_true] at hg
+    have ho := castFields_good' allow tfs hT.2 fs p hg.1.2 hg.2
+    split at e
+    · rename_i h1 h2
+      cases e
+      simp only [List.append_eq_nil_iff] at h1
+      have hk := castFields_out_keys allow tfs fs p h1.1 h2
+      simp [good, Val.wf, Val.data, hk, hT.1, ho.1, ho.2]
+    · cases e
+    · cases e
+theorem castFields_good' (allow : Bool) : ∀ (tfs : TyFields), tfs.wf = true → ∀ (fs : Fields) (p : Path),
+    fs.wf = true → fs.data = true →
+    (castFields allow tfs fs p).out.wf = true ∧ (castFields allow tfs fs p).out.data = true
+  | .nil, _, fs, p, _, _ => by simp [castFields, Fields.wf, Fields.data]
+  | .cons k t rest, hT, fs, p, hw, hd => by
+    simp only [TyFields.wf, Bool.and_eq_true] at hT
+    have ih := castFields_good' allow rest hT.2 fs p hw hd
+    cases hl : fs.lookup k with
+    | none => rw [castFields_cons_none hl]; exact ih
+    | some x =>
+      cases hc : castAll allow t x (p ++ [.field k]) with
+      | error es => rw [castFields_cons_err hl hc]; exact ih
+      | ok x' =>
+        rw [castFields_cons_ok hl hc]
+        have := castAll_good allow t hT.1 x _ x' (fields_good_mem fs hw hd k x hl) hc
+        simp only [good, Bool.and_eq_true] at this
+        simp [Fields.wf, Fields.data, this.1, this.2, ih.1, ih.2]
+end
+
+/-! ### … and that sub-value is not convertible to the type it meets -/
+
+theorem stripOpt_idem : ∀ (T : Ty), T.stripOpt.stripOpt = T.stripOpt
+  | .opt t => by simp [Ty.stripOpt, stripOpt_idem t]
+  | .any | .null | .int | .float | .bool | .str | .range | .anyobj | .fn | .list _ | .obj _ => by
+    simp [Ty.stripOpt]
+
+theorem peel_idem (v : Val) (T : Ty) : peel v (peel v T) = peel v T := by
+  cases v <;> simp [peel, stripOpt_idem]
+
+theorem subAt_peeled : ∀ (q : Path) (v : Val) (T : Ty) (vs : Val) (Ts : Ty),
+    subAt q v T = .some (vs, Ts) → peel vs Ts = Ts
+  | [], v, T, vs, Ts, h => by
+    simp [subAt] at h; obtain ⟨rfl, rfl⟩ := h; exact peel_idem _ _
+  | c :: rest, v, T, vs, Ts, h => by
+    simp only [subAt] at h
+    split at h
+    · exact subAt_peeled rest _ _ vs Ts h
+    · rename_i i xs t _
+      cases hg : xs.get? i with
+      | none => simp [hg] at h
+      | some x => simp [hg] at h; exact subAt_peeled rest _ _ vs Ts h
+    · split at h
+      · exact subAt_peeled rest _ _ vs Ts h
+      · cases h
+    · cases h
+
+theorem convertibleFields_missing : ∀ (allow : Bool) (tfs : TyFields) (fs : Fields) (k : String),
+    k ∈ tfs.keys → fs.lookup k = .none → convertibleFields allow tfs fs = false
+  | allow, .nil, fs, k, hk, _ => by simp [TyFields.keys] at hk
+  | allow, .cons k' t rest, fs, k, hk, hl => by
+    simp only [TyFields.keys, List.mem_cons] at hk
+    rcases hk with rfl | hk
+    · simp [convertibleFields, hl]
+    · simp [convertibleFields, convertibleFields_missing allow rest fs k hk hl]
+
+theorem stripOpt_ne_opt : ∀ (T : Ty) (t : Ty), T.stripOpt ≠ .opt t
+  | .opt t', t => by simpa [Ty.stripOpt] using stripOpt_ne_opt t' t
+  | .any, _ | .null, _ | .int, _ | .float, _ | .bool, _ | .str, _ | .range, _ | .anyobj, _ | .fn, _
+  | .list _, _ | .obj _, _ => by simp [Ty.stripOpt]
+
+theorem offends_not_convertible (allow : Bool) (c : ErrClass) (vs : Val) (Ts : Ty)
+    (hp : peel vs Ts = Ts) (h : offends allow c vs Ts = true) : convertible allow Ts vs = false := by
+  cases c with
+  | incompatible =>
+    simp only [offends, Bool.not_eq_true'] at h
+    cases Ts <;> cases vs <;> simp [rootFits] at h <;>
+      simp_all [convertible, isScalarNum, peel] <;>
+      exact absurd hp (stripOpt_ne_opt _ _)
+  | unexpectedField k =>
+    cases vs <;> cases Ts <;> simp [offends] at h
+    rename_i fs tfs
+    simp only [convertible, Bool.and_eq_false_iff]
+    right
+    simp only [List.all_eq_false]
+    exact ⟨k, by simpa [Fields.hasKey] using h.1, by simp [h.2]⟩
+  | missingField k =>
+    cases vs <;> cases Ts <;> simp [offends] at h
+    rename_i fs tfs
+    simp only [convertible, Bool.and_eq_false_iff]
+    left
+    have hk : k ∈ tfs.keys := by simpa [TyFields.hasKey] using h.1
+    have hn : k ∉ fs.keys := by simpa [Fields.hasKey] using h.2
+    exact convertibleFields_missing allow tfs fs k hk (lookup_none_of_not_mem fs k hn)
 
 end HmsProofs.Lemmas.ValCast
